@@ -130,6 +130,12 @@ def edits(rng, j, tag):
     out.append(E('memory-value-lex-upper', lambda k: [e.__setitem__('value', e['value'][:3] + e['value'][3:].upper()) for e in k['public_input']['public_memory']], 'any'))
     out.append(E('memory-value-lex-leading-zeros', lambda k: [e.__setitem__('value', '0x00' + e['value'][2:]) for e in k['public_input']['public_memory'][:8]], 'any'))
     out.append(E('memory-value-ge-P', lambda k: k['public_input']['public_memory'][3].__setitem__('value', hex(P + 5))))
+    out.append(E('memory-value-missing', lambda k: k['public_input']['public_memory'][3].pop('value'), 'err'))       # (coverage: never reached)
+    out.append(E('memory-value-null', lambda k: k['public_input']['public_memory'][3].__setitem__('value', None), 'err'))
+    vp = ann_idx(j, r'V->P.*nteraction element')
+    if vp:
+        out.append(E('interaction-element-badhex', lambda k: k['annotations'].__setitem__(vp[0], re.sub(r'0x[0-9a-f]+', '0xzz', k['annotations'][vp[0]])), 'any'))
+    # ('plain' is a layout the real parser knows and the independent loader does not model: no verifier build exists for it — not compared)
     out.append(E('memory-empty', lambda k: k['public_input'].__setitem__('public_memory', []), 'err'))
     # a well-formed continuous page (consecutive addresses) in the MIDDLE / at the END of the public memory: the main page is
     # every page-0 entry in file order
@@ -262,7 +268,7 @@ def disagreement(c, co, mo):
     if co[0] == 'err' and mo[0] == 'ok':
         # the real parser validates data that never reaches the verifier (continuous pages, number of V->P interaction lines)
         # a lexical variant Stone never writes (upper-case digits, leading zeros) may be refused; it must never convert to another number
-        return None if ('nonconsecutive' in kind or 'lex-' in kind) else {'key': 'rejects:' + kind, 'what': f"the real parser rejects a file the format accepts ({c['name']})"}
+        return None if ('nonconsecutive' in kind or 'lex-' in kind or 'interaction-element' in kind) else {'key': 'rejects:' + kind, 'what': f"the real parser rejects a file the format accepts ({c['name']})"}
     if co[0] == 'ok' and mo[0] == 'err':
         for suffix, key in LENIENT.items():
             if kind.endswith(suffix):
